@@ -627,6 +627,9 @@ func main() {
 	if packages.PrintErrors(pkgs) > 0 {
 		fatal("packages have errors")
 	}
+	if len(pkgs) < len(patterns) {
+		fatal("loaded %d packages for %d patterns (a pattern did not resolve; go list problem?)", len(pkgs), len(patterns))
+	}
 	globalNames := map[string]bool{}
 	for _, g := range strings.Split(*flagGlobals, ",") {
 		if g != "" {
@@ -695,6 +698,9 @@ func main() {
 	if *flagStats != "" {
 		sb, _ := json.MarshalIndent(st, "", " ")
 		os.WriteFile(*flagStats, sb, 0o644)
+	}
+	if st.Files == 0 {
+		fatal("no files were instrumented")
 	}
 	fmt.Printf("vinstr: %d files, rewrites %v\n", st.Files, st.Rewrites)
 }
